@@ -6,8 +6,10 @@ package qbft
 
 import (
 	"context"
+	"time"
 
 	k1 "github.com/decred/dcrd/dcrec/secp256k1/v4"
+	"github.com/libp2p/go-libp2p/core/host"
 	"github.com/libp2p/go-libp2p/core/peer"
 	"google.golang.org/protobuf/proto"
 	"google.golang.org/protobuf/types/known/anypb"
@@ -15,8 +17,12 @@ import (
 	"github.com/obolnetwork/charon/app/log"
 	"github.com/obolnetwork/charon/core"
 	"github.com/obolnetwork/charon/core/consensus/instance"
+	"github.com/obolnetwork/charon/core/consensus/metrics"
+	"github.com/obolnetwork/charon/core/consensus/protocols"
+	"github.com/obolnetwork/charon/core/consensus/timer"
 	pbv1 "github.com/obolnetwork/charon/core/corepb/v1"
 	"github.com/obolnetwork/charon/core/qbft"
+	"github.com/obolnetwork/charon/p2p"
 )
 
 // Verification hooks (build tag verif): entry points of the wire-message admission path for the
@@ -148,3 +154,58 @@ func LeaderVerif(duty core.Duty, round int64, nodes int) int64 {
 
 // MaxConsensusMsgSizeVerif exposes maxConsensusMsgSize.
 const MaxConsensusMsgSizeVerif = maxConsensusMsgSize
+
+// NewConsensusWrapVerif returns a consensus component with everything Propose / Participate /
+// runInstance read, built exactly as NewConsensus does but without a beacon client (genesis time
+// and slot duration are given) and without a p2p sender (only usable when every peer other than
+// the local one is absent, i.e. Broadcast never sends). p2pNode only needs to implement ID().
+func NewConsensusWrapVerif(p2pNode host.Host, peers []p2p.Peer, p2pKey *k1.PrivateKey, deadliner core.Deadliner,
+	gaterFunc core.DutyGaterFunc, snifferFunc func(*pbv1.SniffedConsensusInstance), genesisTime time.Time,
+	slotDuration time.Duration, compareAttestations bool,
+) (*Consensus, error) {
+	keys := make(map[int64]*k1.PublicKey)
+
+	var labels []string
+
+	for i, p := range peers {
+		labels = append(labels, p.Name)
+
+		pk, err := p.PublicKey()
+		if err != nil {
+			return nil, err
+		}
+
+		keys[int64(i)] = pk
+	}
+
+	c := &Consensus{
+		p2pNode:             p2pNode,
+		peers:               peers,
+		peerLabels:          labels,
+		privkey:             p2pKey,
+		pubkeys:             keys,
+		deadliner:           deadliner,
+		snifferFunc:         snifferFunc,
+		gaterFunc:           gaterFunc,
+		dropFilter:          log.Filter(),
+		timerFunc:           timer.GetRoundTimerFunc(genesisTime, slotDuration),
+		metrics:             metrics.NewConsensusMetrics(protocols.QBFTv2ProtocolID),
+		compareAttestations: compareAttestations,
+	}
+	c.mutable.instances = make(map[core.Duty]*instance.IO[Msg])
+
+	return c, nil
+}
+
+// InstanceFlagsVerif returns the flags of the duty's instance IO without creating it.
+func (c *Consensus) InstanceFlagsVerif(duty core.Duty) (exists, proposed, participated, running bool, recvLen int) {
+	c.mutable.Lock()
+	defer c.mutable.Unlock()
+
+	inst, ok := c.mutable.instances[duty]
+	if !ok {
+		return false, false, false, false, 0
+	}
+
+	return true, inst.Proposed.Load(), inst.Participated.Load(), inst.Running.Load(), len(inst.RecvBuffer)
+}
